@@ -66,9 +66,9 @@ namespace sim
 #define SET_ST sim::sim_state&, sim::tree_state&
 #define SET_PLAIN 0
 #elif SIM_SET == 9
-// ... and over a control with unwind()
+// ... and over a control with unwind(), on a lazily tracking input (nodes hold bare data pointers)
 #define SET_NAME "S9"
-#define SET_IN sim::sim_mem< tao::pegtl::tracking_mode::eager >
+#define SET_IN sim::sim_mem< tao::pegtl::tracking_mode::lazy >
 #define SET_CTL tao::pegtl::parse_tree::internal::make_control< tao::pegtl::parse_tree::node, sim::sim_selector, sim::sim_control >::type
 #define SET_TREE_BASE sim::sim_control
 #define SET_ST sim::sim_state&, sim::tree_state&
